@@ -379,6 +379,8 @@ func scenarios(th bool) []scenario {
 		{Name: "2r writer and reader, fresh", Threads: [][]op{{put("A", "Y")}, {gb("A"), gf("A")}}, Bound: b2},
 		{Name: "4r identical re-store, one reader", Pre: [][2]string{{"A", "X"}}, Threads: [][]op{{put("A", "X")}, {gb("A"), gf("A")}}, MustHit: []string{"A"}, Bound: b2},
 		{Name: "7 empty content", Threads: [][]op{{put("A", "E")}, {put("A", "E")}, {gb("A"), gf("A")}}, Bound: b3},
+		{Name: "9 two goroutines sharing one Cache value look up different ids", Pre: [][2]string{{"A", "X"}, {"B", "Y"}}, Threads: [][]op{{gb("A"), gf("A")}, {gb("B"), gf("B")}}, SameCache: []int{0, 1}, MustHit: []string{"A", "B"}, Bound: b2},
+		{Name: "10 goroutines sharing one Cache value: writer of B, reader of A", Pre: [][2]string{{"A", "X"}}, Threads: [][]op{{put("B", "Y"), gb("B")}, {gb("A"), gf("A")}}, SameCache: []int{0, 1}, MustHit: []string{"A"}, Bound: b2},
 		{Name: "8 re-store while another id shares the output", Pre: [][2]string{{"A", "X"}, {"B", "X"}}, Threads: [][]op{{put("A", "X")}, {gb("B"), gf("B")}}, MustHit: []string{"A", "B"}, Bound: b2},
 	}
 }
